@@ -67,7 +67,8 @@ def build_harness(features=("likely", "serde", "macros")):
             shutil.rmtree(src)
         shutil.copytree(HARNESS_SRC, src)
         p = os.path.join(src, "Cargo.toml")
-        open(p, "w").write(open(p).read().replace('path = "/repo/', 'path = "%s/' % REPO))
+        txt = open(p).read().replace('path = "/repo/', 'path = "%s/' % REPO)
+        open(p, "w").write(txt)
         target = os.path.join(BUILD, "cargo-rehearsal-" + tag)
     cmd = ["cargo", "build", "--release", "--offline", "--no-default-features"]
     if features:
